@@ -151,10 +151,12 @@ func (c *Context) ParseFile(file string, src any) (*Package, error) {
 
 func (c *Context) loadPackage(srcDir string, pkgs map[string]*ast.Package) (*Package, error) {
 	mainPkg, ok := pkgs["main"]
-	if !ok {
-		for _, v := range pkgs {
-			mainPkg = v
-			break
+	if !ok { // no main package: take the first one by name, not by map order
+		var first string
+		for name, v := range pkgs {
+			if mainPkg == nil || name < first {
+				first, mainPkg = name, v
+			}
 		}
 	}
 	conf := &cl.Config{Fset: c.fset}
